@@ -3,7 +3,7 @@ C25 helper lemmas, part 4: the top-level invariant, its preservation by every op
 (including restart with raft replay), and the drain lemma for the healing suffix.
 -/
 import RqModel.Lemmas.Cdc3
-namespace RqModel.Cdc
+namespace RqModel.CdcPipe
 open RqModel.Fifo
 
 structure Top (s : St) : Prop where
@@ -278,4 +278,4 @@ theorem top_tick (s : St) (ht : Top s) : Top (stepOp s .tick) := by
     · split <;> exact ⟨rfl, rfl⟩
   exact top_of_core s _ ht hb hc hl.1 hl.2
 
-end RqModel.Cdc
+end RqModel.CdcPipe
